@@ -134,6 +134,7 @@ T_C09drop == [][Live => /\ ((Ev.ev = "I" /\ ~Local(Ev.i.f) /\ IsLocalhost(Ev.i.n
                               (Len(Ev.oi) = 0 /\ Len(Ev.od) = 0 /\ Ev.obs.ents = Cardinality(DOMAIN pit) /\ Ev.obs.csn = Cardinality(DOMAIN cs)))
                         /\ ((Ev.ev = "D" /\ ~Local(Ev.i.f) /\ IsLocalhost(Ev.i.n)) =>
                               (Len(Ev.o.D) = 0 /\ Ev.obs.ents = Cardinality(DOMAIN pit) /\ Ev.obs.csn = Cardinality(DOMAIN cs)))]_tvars
-T_C09scope == [][(Live /\ Ev.ev = "F") => Ev.scope = FaceScope(Ev.kind, Ev.loopback)]_tvars
+T_C09scope == [][(Live /\ Ev.ev = "F") => IF Ev.kind = "summary" THEN Ev.tcpOut >= 30 /\ Ev.internal >= 1      \* the classification was exercised
+                                             ELSE Ev.scope = FaceScope(Ev.kind, Ev.loopback)]_tvars
 T_C09 == P_C09 /\ T_C09obs /\ T_C09drop /\ T_C09scope
 ====
